@@ -4,6 +4,7 @@ import (
 	"encoding/json"
 	"fmt"
 	"regexp"
+	"sort"
 	"strings"
 	"testing"
 	"unicode/utf8"
@@ -291,7 +292,105 @@ func checkGlobThroughLinter(pat string, isRef bool, quote string) (key, msg stri
 	return "", ""
 }
 
+type c17Filter struct {
+	Kind string   `json:"kind"`
+	Pats []string `json:"pats"`
+}
+type c17Event struct {
+	Name    string      `json:"name"`
+	Filters []c17Filter `json:"filters"`
+}
+type c17Multi struct {
+	Events []c17Event `json:"events"`
+}
+
+// checkSeveralFilters renders the events and compares the glob diagnostics with the validators'
+// verdicts per occurrence. both = some string occurs as ref filter and as path filter.
+func checkSeveralFilters(c *c17Multi) (key, msg string, both bool) {
+	var b strings.Builder
+	b.WriteString("on:\n")
+	line := 1
+	var want []string
+	asRef, asPath := map[string]bool{}, map[string]bool{}
+	for _, ev := range c.Events {
+		fmt.Fprintf(&b, "  %s:\n", ev.Name)
+		line++
+		if ev.Name == "workflow_run" {
+			b.WriteString("    workflows: [ci]\n")
+			line++
+		}
+		for _, f := range ev.Filters {
+			fmt.Fprintf(&b, "    %s:\n", f.Kind)
+			line++
+			for _, p := range f.Pats {
+				fmt.Fprintf(&b, "      - '%s'\n", strings.ReplaceAll(p, "'", "''"))
+				line++
+				var errs []al.InvalidGlobPattern
+				if strings.HasPrefix(f.Kind, "paths") {
+					errs = al.ValidatePathGlob(p)
+					asPath[p] = true
+				} else {
+					errs = al.ValidateRefGlob(p)
+					asRef[p] = true
+				}
+				for _, e := range errs {
+					col := 10 + e.Column - 1
+					if e.Column == 0 {
+						col = 10
+					}
+					want = append(want, fmt.Sprintf("%d:%d:%s", line, col, e.Message))
+				}
+			}
+		}
+	}
+	for p := range asRef {
+		if asPath[p] {
+			both = true
+		}
+	}
+	b.WriteString("jobs:\n  a:\n    runs-on: ubuntu-latest\n    steps:\n      - run: echo\n")
+	y := b.String()
+	ds, err, pan, st := lintSafe([]byte(y))
+	if pan != nil {
+		return "C17/panic", fmt.Sprintf("panic %v at %s\n%s", pan, st, y), both
+	}
+	if err != nil {
+		return "C17/linter-fatal", fmt.Sprintf("%v\n%s", err, y), both
+	}
+	var got []string
+	for _, d := range ds {
+		if d.Kind == "glob" {
+			m := d.Msg
+			if i := strings.Index(m, ". note: "); i >= 0 {
+				m = m[:i]
+			}
+			got = append(got, fmt.Sprintf("%d:%d:%s", d.Line, d.Col, m))
+		}
+	}
+	for i := range want {
+		if j := strings.Index(want[i], ". note: "); j >= 0 {
+			want[i] = want[i][:j]
+		}
+	}
+	sort.Strings(want)
+	sort.Strings(got)
+	if strings.Join(want, "\n") != strings.Join(got, "\n") {
+		missing, extra := diffStrings(want, got)
+		return "C17/linter-glob-diagnostics-differ-from-validators(several-filters)", fmt.Sprintf("expected but not reported: %v\nreported but not expected: %v\n%s", missing, extra, y), both
+	}
+	return "", "", both
+}
+
 func init() {
+	hx.RegisterReplayer("C17/several", func(r *hx.Run, data json.RawMessage) {
+		var c c17Multi
+		if err := json.Unmarshal(data, &c); err != nil {
+			panic(err)
+		}
+		if k, m, _ := checkSeveralFilters(&c); k != "" {
+			r.Report(k, m, "C17/several", &c)
+		}
+	})
 	hx.RegisterReplayer("C17/glob", func(r *hx.Run, data json.RawMessage) {
 		var c globCase
 		if err := json.Unmarshal(data, &c); err != nil {
@@ -331,7 +430,7 @@ func globClass(pat string) string {
 
 func TestC17(t *testing.T) {
 	hx.Main(t, "C17", func(r *hx.Run) {
-		r.Rule = "all strings up to length 5 (thorough 6) over {a b / . * ? + [ ] - ! \\ space ~ ^ : \\n \\t é}, both validators; random longer strings; sampled through the linter (plain/single/double quoted). Oracle: three-valued reference validator (cheat sheet + git ref character rules; 'undecided' strings are not compared), implication ref=>path, column inside the pattern and equal to the named character. Non-trivial = string containing a special, ref-forbidden, whitespace or non-ASCII character; distinct by construction / by string hash."
+		r.Rule = "all strings up to length 5 (thorough 6) over {a b / . * ? + [ ] - ! \\ space ~ ^ : \\n \\t é}, both validators; random longer strings; sampled through the linter (plain/single/double quoted), and workflows with 1-4 events x branches/tags/paths(-ignore) filters whose patterns come from a pool of three strings (the same string as ref and as path filter, earlier and later). Oracle: three-valued reference validator (cheat sheet + git ref character rules; 'undecided' strings are not compared), implication ref=>path, column inside the pattern and equal to the named character. Non-trivial = string containing a special, ref-forbidden, whitespace or non-ASCII character; distinct by construction / by string hash."
 		r.Assumptions = []string{"a set with a single character is reported (pinned by glob_test.go)", "path values with leading/trailing space are reported (pinned by ValidatePathGlob tests)", "ref strings involving multi-character git rules (.., //, @{, leading-dot components, .lock) or ref-forbidden characters inside a set are treated as undecided by the documentation"}
 		nviol := 0
 		idx := int64(0)
@@ -428,6 +527,61 @@ func TestC17(t *testing.T) {
 			r.Class("linter/quote=" + map[string]string{"": "plain", "'": "single", "\"": "double"}[q])
 			if k, m := checkGlobThroughLinter(s, isRef, q); k != "" {
 				r.Fail(rt, k, m, "C17/glob", &globCase{s})
+			}
+		})
+		// several events and filters in one workflow, patterns drawn from a pool of three strings so that
+		// the same string occurs as ref filter and as path filter, earlier and later in the file: every
+		// occurrence is validated by the syntax of its own filter kind
+		r.Check(t, "through-linter-several-filters", hx.N(1500, 30000), func(rt *rapid.T) {
+			var pool []string
+			for i := 0; i < 3; i++ {
+				n := rapid.IntRange(1, 6).Draw(rt, "n")
+				var b strings.Builder
+				for j := 0; j < n; j++ {
+					b.WriteRune(rapid.SampledFrom([]rune{'a', 'b', '/', '.', '*', '?', '+', '[', ']', '-', '!', '\\', ' ', '~', '^', ':'}).Draw(rt, "c"))
+				}
+				pool = append(pool, b.String())
+			}
+			c := &c17Multi{}
+			events := rapid.Permutation([]string{"push", "pull_request", "pull_request_target", "workflow_run"}).Draw(rt, "events")
+			events = events[:rapid.IntRange(1, 4).Draw(rt, "nevents")]
+			for _, ev := range events {
+				var kinds []string
+				pick := func(a, b string) {
+					switch rapid.IntRange(0, 2).Draw(rt, "pick") {
+					case 0:
+						kinds = append(kinds, a)
+					case 1:
+						kinds = append(kinds, b)
+					}
+				}
+				pick("branches", "branches-ignore")
+				if ev == "push" {
+					pick("tags", "tags-ignore")
+				}
+				if ev != "workflow_run" {
+					pick("paths", "paths-ignore")
+				}
+				kinds = rapid.Permutation(kinds).Draw(rt, "kindorder")
+				f := c17Event{Name: ev}
+				for _, k := range kinds {
+					fl := c17Filter{Kind: k}
+					for i := rapid.IntRange(1, 3).Draw(rt, "npat"); i > 0; i-- {
+						fl.Pats = append(fl.Pats, rapid.SampledFrom(pool).Draw(rt, "pat"))
+					}
+					f.Filters = append(f.Filters, fl)
+				}
+				c.Events = append(c.Events, f)
+			}
+			k, m, both := checkSeveralFilters(c)
+			r.Eval()
+			if both {
+				r.NT(fmt.Sprint(c))
+				r.Class("several-filters/same-string-as-ref-and-path-filter")
+			}
+			r.Class(fmt.Sprintf("several-filters/events=%d", len(c.Events)))
+			if k != "" {
+				r.Fail(rt, k, m, "C17/several", c)
 			}
 		})
 	})
